@@ -50,10 +50,10 @@ Definition tie_outcome (m obs : outcome value) : bool :=
 
 Definition c11_tie (c : c11_case) : bool :=
   match c with
-  | CExpr _ _ pe ctx obs => tie_outcome (peval ctx pe) obs
-  | CCall pe ctx _ obs => tie_outcome (peval ctx pe) obs
+  | CExpr _ _ pe ctx obs => tie_outcome (peval no_oracle ctx pe) obs
+  | CCall pe ctx _ obs => tie_outcome (peval no_oracle ctx pe) obs
   | CFilter pe outer rows _ out_rows out_res =>
-      let '(m_rows, m_res) := filter_run (materialize pe) outer rows in
+      let '(m_rows, m_res) := filter_run (materialize no_oracle pe) outer rows in
       match m_res with
       | Err e => if e =? E_NOT_MODELLED then true else rows_eqb m_rows out_rows && res_eqb m_res out_res
       | _ => rows_eqb m_rows out_rows && res_eqb m_res out_res
